@@ -76,7 +76,7 @@ func matchesAt(got []byte, at int, key uint64, pos int64, n int) bool {
 	if at+n > len(got) {
 		n = len(got) - at
 	}
-	if n < 8 {
+	if n < 1 {
 		return false
 	}
 	exp := prfBytes(key, pos, n)
